@@ -29,7 +29,12 @@ ChainsLong ==
          ELSE {<<m1, m2, m3>> : m2, m3 \in ShortNames}
               \cup RandomSubset(400, {<<m1, m2, m3, m4>> : m2, m3, m4 \in ShortNames})
 
-Cases == {[vals |-> v, chain |-> c, field |-> f] : v \in Values, c \in Chains, f \in {TRUE}}
+\* regular expressions that carry flags when a wildcard modifier extends them (and flags added afterwards): always generated
+ReChains == IF Shard # 0 THEN {} ELSE
+            {<<N_re, f, w>> : f \in {N_i, N_m, N_s}, w \in {N_contains, N_startswith, N_endswith}}
+            \cup {<<N_re, N_i, N_m, N_contains>>, <<N_re, N_i, N_contains, N_m>>, <<N_re, N_contains, N_i>>, <<N_re, N_s, N_endswith, N_i>>}
+Cases == {[vals |-> v, chain |-> c, field |-> TRUE] : v \in CoreValues, c \in ReChains} \cup
+         {[vals |-> v, chain |-> c, field |-> f] : v \in Values, c \in Chains, f \in {TRUE}}
          \cup {[vals |-> v, chain |-> c, field |-> FALSE] : v \in {<<StrSeeds[2]>>, <<OtherSeeds[5]>>}, c \in Chains}
          \cup {[vals |-> v, chain |-> c, field |-> TRUE] : v \in CoreValues, c \in ChainsLong}
 ASSUME LET S == SetToSeq(Cases)
